@@ -137,12 +137,12 @@ SPECS["C09"] = {
                    "timestamp, source, tags; an expired series leaves no empty name entry. Because the pre-state is arbitrary this covers histories of any "
                    "length. A history harness (real constructor, one datapoint of a symbolic type at T, three flushes at symbolic non-decreasing times) "
                    "cross-checks 'reported exactly until and including the first flush more than the expiry after T'.",
-    "bounds": {"quick": "all int64 expiries x 4 types, all 0 <= ts <= now < 2^62; history of 3 flushes", "thorough": "same"},
+    "bounds": {"quick": "all int64 expiries x 4 types, all 0 <= ts <= now < 2^62; histories of 3 and 5 flushes, and of 4 flushes with a second datapoint arriving before a symbolic one of them (the expiry then counts from that datapoint; an expired series is created again)", "thorough": "same"},
     "outside": ["timestamps at or beyond 2^62 (subtraction overflow)", "concurrent ReceiveMap during a flush (single-owner discipline, structural)"],
     "assumptions": STUBS_COMMON + [MATH_NOTE, TIME_MODEL],
     "jobs": [
         {"pkg": "./pkg/statsd", "harness": "pkg/statsd", "mode": "math",
-         "entries": {"quick": ["VerifC09_Step", "VerifC09_Hist", "VerifC09_Twin"]},
+         "entries": {"quick": ["VerifC09_Step", "VerifC09_Hist", "VerifC09_Hist5", "VerifC09_HistResend", "VerifC09_Twin"]},
          "reach": {"VerifC09_Step": ["counter-survives", "counter-expired"], "VerifC09_Hist": ["alive-after-3", "expired-in-history"]},
          "twin": {"VerifC09_Twin": True},
          "limits": {"quick": {"timeout": "600s"}, "thorough": {"timeout": "600s"}}},
@@ -460,14 +460,15 @@ SPECS["C19"] = {
                    "s:/p:/t:, #tag that may coincide with the static tag). Asserted: nothing reaches a backend before the lookup completed; each backend receives the event exactly once with "
                    "title, text (newline restored), time (receipt time when absent), key, source type, priority, alert type; tags = own + static without duplicates + cloud tags after a "
                    "successful lookup; source = sender address or instance id; both wait-group counters are back to 0 and the semaphore is empty after WaitForEvents; with 0 backends nothing "
-                   "blocks. The HTTP ingestion endpoint and forwarder mode are exercised by the C14 event entry (real EventHandler and dispatchEvent).",
-    "bounds": {"quick": "0..3 backends, 1..3 concurrent events, one event per run, fields of 1..3 bytes", "thorough": "same"},
+                   "blocks. TWO EVENTS: two event lines in one datagram, or one each from two senders (symbolic), parked together on a cache miss with the lookup answers arriving in a "
+                   "symbolic order: each backend receives each event exactly once with its own title and its own sender's source. The HTTP ingestion endpoint and forwarder mode are exercised by the C14 event entry (real EventHandler and dispatchEvent).",
+    "bounds": {"quick": "0..3 backends, 1..3 concurrent events, one or two events per run, fields of 1..3 bytes", "thorough": "same"},
     "outside": ["concurrent senders and real goroutine interleavings", "the 20 s per-event timeout context (modelled as a context that is never cancelled)"],
     "assumptions": STUBS_COMMON + [PF_STUB, TIME_MODEL, "context.WithTimeout/WithDeadline return a cancellable context whose deadline never fires"],
     "jobs": [
         {"pkg": "./pkg/statsd", "harness": "pkg/statsd", "mode": "machine", "blocked_is_violation": True,
-         "entries": {"quick": ["VerifC19_0", "VerifC19_1", "VerifC19_2", "VerifC19_3", "VerifC19_Twin"]},
-         "reach": {"VerifC19_2": ["after-lookup", "cache-hit", "delivered"]},
+         "entries": {"quick": ["VerifC19_0", "VerifC19_1", "VerifC19_2", "VerifC19_3", "VerifC19_Two1", "VerifC19_Two2", "VerifC19_Twin"]},
+         "reach": {"VerifC19_2": ["after-lookup", "cache-hit", "delivered"], "VerifC19_Two2": ["after-lookup", "two-senders", "delivered-two"]},
          "twin": {"VerifC19_Twin": True},
          "limits": {"quick": {"timeout": "600s"}, "thorough": {"timeout": "600s"}}},
     ],
